@@ -459,6 +459,69 @@ pub fn run(ck: &mut Check) {
     for cls in ["specified_spelling", "unknown_value", "alias", "wildcard_with_suffix"] {
         ck.floor("near_misses_and_random", cls, 200);
     }
+    // RoomVersionId: the one *validated* string enum (its grammar is C10's business); for the strings it
+    // accepts the same laws hold, and its ordering is documented as the ordering of the string forms.
+    let n = ck.n(100_000, 4_000_000);
+    ck.prop(
+        "room_version_ids",
+        n,
+        || {
+            let one = || prop_oneof![
+                3 => (1u32..14).prop_map(|n| n.to_string()),
+                2 => "[0-9]{1,4}",
+                2 => "[0-9]{1,2}[a-z.-]{0,2}",
+                1 => "[A-Za-z0-9.-]{1,32}",
+                1 => "\\PC{0,4}",
+            ];
+            (one(), one(), one()).prop_map(|(a, b, c)| EnumCase { ty: "RoomVersionId".into(), a, b, c })
+        },
+        room_version_oracle,
+    );
+    ck.floor("room_version_ids", "numeric_ids_of_different_length", 5000);
+    ck.floor("room_version_ids", "custom_version", 5000);
+}
+
+fn room_version_oracle(c: &EnumCase, cx: &mut CaseCtx) -> Result<(), String> {
+    use ruma_common::RoomVersionId;
+    let mut vals = vec![];
+    for s in [&c.a, &c.b, &c.c] {
+        let grammar_ok = !s.is_empty() && s.chars().count() <= 32 && s.chars().all(|ch| ch.is_ascii_alphanumeric() || ch == '.' || ch == '-');
+        let v = match RoomVersionId::try_from(s.as_str()) {
+            Ok(v) => v,
+            Err(_) if !grammar_ok => continue,
+            Err(e) => return Err(format!("RoomVersionId rejects {s:?}: {e}")),
+        };
+        if !grammar_ok {
+            return Err(format!("RoomVersionId accepts {s:?}"));
+        }
+        if v.as_str() != s || v.to_string() != *s || AsRef::<str>::as_ref(&v) != s {
+            return Err(format!("RoomVersionId: converting {s:?} to the enum and back gives {:?}", v.as_str()));
+        }
+        let dedicated = s.parse::<u32>().is_ok_and(|n| (1..=11).contains(&n)) && !s.starts_with('0');
+        if dedicated != v.rules().is_some() {
+            return Err(format!("RoomVersionId {s:?}: dedicated variant expected = {dedicated}, rules() is {}", if v.rules().is_some() { "Some" } else { "None" }));
+        }
+        cx.class_if(!dedicated, "custom_version");
+        let json = serde_json::to_string(&v).map_err(|e| e.to_string())?;
+        if json != serde_json::to_string(s).unwrap() || serde_json::from_str::<RoomVersionId>(&json).ok().as_ref() != Some(&v) {
+            return Err(format!("RoomVersionId {s:?}: JSON form {json} disagrees with the string form"));
+        }
+        vals.push((s.clone(), v));
+    }
+    cx.nontrivial_if(vals.len() >= 2);
+    let numeric = |s: &str| s.chars().all(|ch| ch.is_ascii_digit());
+    for (sa, va) in &vals {
+        for (sb, vb) in &vals {
+            cx.class_if(numeric(sa) && numeric(sb) && sa.len() != sb.len(), "numeric_ids_of_different_length");
+            if (va == vb) != (sa == sb) {
+                return Err(format!("RoomVersionId: {sa:?} == {sb:?} is {} but the string forms say {}", va == vb, sa == sb));
+            }
+            if va.cmp(vb) != sa.cmp(sb) || va.partial_cmp(vb) != Some(sa.cmp(sb)) {
+                return Err(format!("RoomVersionId: ordering of {sa:?} and {sb:?} is {:?} but their string forms compare {:?}", va.cmp(vb), sa.cmp(sb)));
+            }
+        }
+    }
+    Ok(())
 }
 
 mod forms {
